@@ -200,11 +200,15 @@ def run_loop_exit(w, unchecked):
                         else:
                             loop_defeat = cg.effective_defeat
                         restore = generator.StackPoint(offset=L.sym('RO', 1, None), array_num=r, static_array_size=0)
+                        # an outer loop around the innermost one (break/continue concern the innermost): other labels, no arrays released, other defeat
+                        cg.loop_info.append(generator.LoopInfo(generator.StackPoint(offset=L.sym('ROO', 1, None), array_num=0, static_array_size=0),
+                                                               asm.LabelRef('continue_outer'), asm.LabelRef('break_outer'), stdlib.halt))
                         cg.loop_info.append(generator.LoopInfo(restore, asm.LabelRef('continue_ext'), asm.LabelRef('break_ext'), loop_defeat))
                         L.exit_labels.update({'break': 'break_ext', 'continue': 'continue_ext'})
                         if r < k:
                             L.ap_at_loop_restore = L.prior_arrays[r]['origin_value']
                         P = props(unchecked, c02=out_of_try)
+                        P['SIM'] = P['SIM'] + ('C16',)          # where control goes: the innermost loop's label (exit-mode analysis assumes that)
                         res += L.check_stmts([cls(SPAN)], P, [('exit', f'{kind}_ext')])
                     finally:
                         L.close()
@@ -275,7 +279,7 @@ def run(family, w, unchecked):
 
 def tasks(tier):
     out = []
-    P = ('C01', 'C02', 'C03', 'C04', 'C05', 'C08', 'C10', 'C15')
+    P = ('C01', 'C02', 'C03', 'C04', 'C05', 'C08', 'C10', 'C15', 'C16')
     for w in ((2,) if tier == 'quick' else (2, 3, 4, 8)):
         for unchecked in ((False, True) if tier == 'thorough' else (False,)):
             for fam in FAMILIES:
